@@ -666,6 +666,26 @@ def _check_state(b, part, model, hist, queries=True):
         prv = [o for q in reversed(pts[:i]) for o in q.iter_starting(sc.GenericNote, include_subclasses=True)]
         if list(p.iter_next(sc.GenericNote, include_subclasses=True)) != nxt or list(p.iter_prev(sc.GenericNote, include_subclasses=True)) != prv:
             okq, whatq = False, "iter_next/iter_prev from t=%d differ from the registered objects in time order" % p.t
+    # every class / eq / include_subclasses combination, against the model's registries (per point as a multiset: the order of
+    # different classes inside one point is not stated)
+    for cls in (sc.GenericNote, sc.Note, sc.Rest, sc.Measure, sc.TimedObject):
+        for incl in (False, True):
+            for eq in (False, True):
+                for i, p in enumerate(pts):
+                    def at(q):
+                        reg = model.sreg.get(q.t, {})
+                        return sorted(id(o) for c, objs in reg.items() if (c is cls or (incl and issubclass(c, cls))) for o in objs)
+                    for name, seq in (("iter_next", pts[i + (0 if eq else 1):]), ("iter_prev", list(reversed(pts[:i + (1 if eq else 0)])))):
+                        got = list(getattr(p, name)(cls, eq=eq, include_subclasses=incl))
+                        want = [x for q in seq for x in at(q)]
+                        grouped, k = [], 0
+                        for q in seq:
+                            n = len(at(q))
+                            grouped += sorted(id(o) for o in got[k:k + n])
+                            k += n
+                        if len(got) != len(want) or grouped != want:
+                            okq, whatq = False, "%s(%s, eq=%r, include_subclasses=%r) from t=%d returns %d objects, the registered ones are %d (or another order in time)" % (
+                                name, cls.__name__, eq, incl, p.t, len(got), len(want))
     if (part.first_point.t if pts else None) != (times[0] if times else None) or (part.last_point.t if pts else None) != (times[-1] if times else None):
         okq, whatq = False, "first/last point"
     for t in range(0, 8):
